@@ -275,7 +275,9 @@ Section Png.
     destruct (rows_of_spec (t_w t) (t_h t) (px_of_bytes (length argb) argb) P2) as (R1 & R2 & R3).
     exists argb, (rows_of (t_w t) (t_h t) (px_of_bytes (length argb) argb)).
     repeat split; auto.
-    - unfold produce_image. rewrite Hf, format_of_num_num, A1. cbn [obind].
+    - unfold produce_image. rewrite Hf, format_of_num_num.
+      replace (Nat.eqb (length (t_data t)) (bpp_nat T f * t_w t * t_h t)) with true by (symmetry; apply Nat.eqb_eq; lia).
+      cbn [negb]. rewrite A1. cbn [obind].
       destruct (Nat.ltb_spec (length argb) (4 * t_w t * t_h t)); [lia|]. reflexivity.
     - now rewrite R1.
   Qed.
